@@ -146,6 +146,7 @@ def run(tier, seed, rng):
         dist['pack_error_on_overlap'] += 'err' in p
         if why is None and r['offset'] == 0:
             passed0[(r['group'], r['c'], r['raw'])] = True
+    failures += pktprops.public_api_failures(groups, records)[:20]
     # finding D10: positioning relative to the start of the data is reproduced by pack only when the start offset is
     # compatible with it (offset 0, or a multiple of every such alignment) -- exactly the hypothesis of theorem C01 / C10
     for r, table, exact, why in results:
